@@ -47,6 +47,13 @@ var Texts = map[string]string{
   grouping sg { leaf sl { type string; } }
   container fromsub { leaf x { type string; } }
 }`,
+	// accepted by the loader, rejected by Process: the errors must come back on every run
+	"e5": `module e5 { namespace "urn:e5"; prefix e5;
+  typedef small { type int8 { range "1..500"; } }
+  leaf bad { type small; }
+  leaf worse { type string { length "5..1"; } }
+  leaf fine { type string; }
+}`,
 	"x-syntax": `module xs { namespace "urn:xs"; prefix xs; container c { leaf l { type string; }`,
 	"x-typedefs-then-rejected": `module xt { namespace "urn:xt"; prefix xt;
   container c { typedef tt { type nosuch; } typedef ok { type string; } }
